@@ -46,7 +46,8 @@ ASSUMPTIONS = [
     "SM3 / SHA-3 / SHAKE image hashes and SM2 / post-quantum signatures are outside the walker; such images are judged by the other clauses only",
 ]
 REQUIRED_COUNTERS = ["built", "verify_clean_pre", "walker_accepted", "signatures_verified", "parse_equal", "verify_clean_post",
-                     "reexport_identical", "srk_hash_checked", "flips_judged", "cli_runs", "encrypted_images_decrypted"]
+                     "reexport_identical", "srk_hash_checked", "flips_judged", "cli_runs", "encrypted_images_decrypted",
+                     "second_exports_judged"]
 CASE_TIMEOUT_S = 1800
 WATCHDOG_S = {"quick": 1500, "thorough": 7200}
 
@@ -729,6 +730,20 @@ def build_and_judge(ctx, spec, info, wdir, tag="build"):
     except SPSDKError as e:
         ctx.violation("export-refuses-image-its-verifier-accepts", {"spec": _brief(spec), "error": str(e)[:300]})
         return None
+    if rng.random() < 0.3:
+        # the same image object asked a second time (update_fields + export, what a caller does after touching a field):
+        # nothing may be consumed or applied twice (encryption, offsets, lengths, hashes); the SECOND file is judged
+        try:
+            ahab.update_fields()
+            data2 = bytes(ahab.export())
+        except SPSDKError as e:
+            ctx.violation("second-update-and-export-of-the-same-object-refused", {"spec": _brief(spec), "error": str(e)[:300]})
+            return None
+        ctx.count("second_exports_judged")
+        if len(data2) != len(data):
+            ctx.violation("second-export-of-the-same-object-has-another-length", {"spec": _brief(spec), "first": len(data), "second": len(data2)})
+            return None
+        data = data2
     ctx.count("built")
     nviol = [0]
 
